@@ -12,8 +12,12 @@ def run(ctx):
     rc = ctx.rule('R-CASKIND', 'every weak compare-exchange lies on a CFG cycle and its role admits weak', minimum=5)
     ctx.assume('the role table (tables/atomic_roles.json, restated in rules/lib_order.py) is necessary, not '
                'sufficient: each row names the plain access that loses its only ordering edge when weakened')
+    rodr = ctx.rule('R-ODR', '(cross-reference, all non-fault units) every inline / constexpr library function that is used is '
+                    'defined in the unit that uses it', minimum=3)
+    from rules import lib_core
     tot = 0
     for cfg, fb in sorted(fbs.items()):
+        lib_core.check_undefined_inline(ctx, fb, rodr)
         words = lib_order.WORDS.keys()
         if cfg == 'K17':
             words = [w for w in words if 'Mutex' not in w and 'Spinlock' not in w]
